@@ -217,13 +217,12 @@ def _run(case, out, rig, variant, fault):
         def f():
             for k, op in enumerate(prog):
                 ident = "t%d-%d" % (ti, k)
+                stanza = bad_stanza(variant, ident) if op == "bad" else out_stanza(variant, ident)
                 try:
-                    if op == "bad":
-                        rig.top.toLower(bad_stanza(variant, ident))
-                    elif op == "oversize":
+                    if op == "oversize":
                         rig.stack.getLayer(3).toLower(bytearray(2 ** 24))
                     else:
-                        rig.top.toLower(out_stanza(variant, ident))
+                        rig.top.toLower(stanza)
                     results[ident] = "ok"
                     if op == "ok":
                         sent_ok.append(ident)
